@@ -193,13 +193,20 @@ public:
 
   allocator_type get_allocator() const { return allocator_; }
 
-  bucket &operator[](size_type i) { return buckets_[i]; }
-  const bucket &operator[](size_type i) const { return buckets_[i]; }
+  bucket &operator[](size_type i) {
+    LIBCUCKOO_VERIF_HOOK(LIBCUCKOO_VH_BUCKET, this, i, 0);
+    return buckets_[i];
+  }
+  const bucket &operator[](size_type i) const {
+    LIBCUCKOO_VERIF_HOOK(LIBCUCKOO_VH_BUCKET, this, i, 0);
+    return buckets_[i];
+  }
 
   // Constructs live data in a bucket
   template <typename K, typename... Args>
   void setKV(size_type ind, size_type slot, partial_t p, K &&k,
              Args &&...args) {
+    LIBCUCKOO_VERIF_HOOK(LIBCUCKOO_VH_BUCKET, this, ind, 1);
     bucket &b = buckets_[ind];
     assert(!b.occupied(slot));
     b.partial(slot) = p;
@@ -213,6 +220,7 @@ public:
 
   // Destroys live data in a bucket
   void eraseKV(size_type ind, size_type slot) {
+    LIBCUCKOO_VERIF_HOOK(LIBCUCKOO_VH_BUCKET, this, ind, 1);
     bucket &b = buckets_[ind];
     assert(b.occupied(slot));
     b.occupied(slot) = false;
